@@ -16,6 +16,7 @@ import (
 	"strconv"
 	"strings"
 	"sync"
+	"sync/atomic"
 	"testing"
 	"time"
 
@@ -255,9 +256,27 @@ func (c c13DumpCfg) applyRequest(rq *Request, log *c13Log) {
 	if c.rq != nil && c.rq.base == 41 {
 		rq.EnableDumpToFile(c.rqFile)
 	} else if c.rq != nil && c.eachReq == 0 {
-		rq.SetDumpOptions(c.rq.options(log)).EnableDump()
+		// every ORDER of the request-level calls that must end with the same dumper (theorems
+		// set_last_wins / enable_set_commute): SetDumpOptions last wins whatever came before
+		opt := c.rq.options(log)
+		other := &DumpOptions{Output: &c13LogWriter{id: 29, log: log}, RequestHeader: true, RequestBody: true, ResponseHeader: true, ResponseBody: true}
+		switch atomic.AddInt64(&c13RqOrder, 1) % 6 {
+		case 0, 1:
+			rq.SetDumpOptions(opt).EnableDump()
+		case 2:
+			rq.EnableDump().SetDumpOptions(opt)
+		case 3:
+			rq.EnableDumpWithoutBody().SetDumpOptions(opt)
+		case 4:
+			rq.SetDumpOptions(other).EnableDump().SetDumpOptions(opt)
+		case 5:
+			rq.EnableDumpTo(other.Output).SetDumpOptions(opt)
+		}
 	}
 }
+
+// c13RqOrder cycles the call orders of applyRequest (lanes run one after the other).
+var c13RqOrder int64
 
 // flush waits until everything a started async dumper queued has been written: a sentinel task
 // goes through the same FIFO channel.
